@@ -2,6 +2,7 @@ package rules
 
 import (
 	"fmt"
+	"go/constant"
 	"go/token"
 	"go/types"
 	"math/big"
@@ -33,6 +34,7 @@ func init() {
 func runC10(c *Ctx) {
 	// a transmit error from a worker aborts the scheduler: cancel, wait, return the error
 	scheduleExits(c, "R-C10-4")
+	c10ErrorChain(c)
 	c10Classify(c)
 	c10Backoff(c)
 	c10Waits(c)
@@ -641,4 +643,165 @@ func (c *Ctx) deferredEvents(rule string, fn *ssa.Function) [][]string {
 		out = append(out, evs)
 	}
 	return out
+}
+
+// wrapsCause reports whether error expression e carries cause in its
+// errors.Is/As chain: it is the cause itself, or fmt.Errorf whose verb for an
+// argument that carries the cause is %w.
+func wrapsCause(e *an.Expr, cause func(*an.Expr) bool) bool {
+	if e == nil {
+		return false
+	}
+	if cause(e) {
+		return true
+	}
+	if e.Op == an.OpPhi {
+		for _, a := range e.Args {
+			if !wrapsCause(a, cause) {
+				return false
+			}
+		}
+		return len(e.Args) > 0
+	}
+	if e.Op != an.OpCall || e.Fn == nil || e.Fn.String() != "fmt.Errorf" || len(e.Args) < 2 {
+		return false
+	}
+	format, ok := constString(e.Args[0])
+	if !ok || e.Args[1].Op != an.OpStruct || e.Args[1].Name != "list" {
+		return false
+	}
+	// verbs in order of the arguments they consume
+	var verbs []byte
+	for i := 0; i+1 < len(format); i++ {
+		if format[i] != '%' {
+			continue
+		}
+		j := i + 1
+		for j < len(format) && strings.ContainsRune("+-# 0123456789.[]*", rune(format[j])) {
+			j++
+		}
+		if j < len(format) {
+			if format[j] != '%' {
+				verbs = append(verbs, format[j])
+			}
+			i = j
+		}
+	}
+	for i, a := range e.Args[1].Args {
+		if i < len(verbs) && verbs[i] == 'w' && wrapsCause(a, cause) {
+			return true
+		}
+	}
+	return false
+}
+
+func constString(e *an.Expr) (string, bool) {
+	if e == nil || e.Op != an.OpConst || e.Cval == nil || e.Cval.Kind() != constant.String {
+		return "", false
+	}
+	return constant.StringVal(e.Cval), true
+}
+
+// c10ErrorChain (R-C10-6): Dialer.init decides whether a failed task is
+// re-established by looking for *os.SyscallError / ErrLinkChange in the error
+// chain (errors.As/Is). The failure therefore has to stay in the chain on its
+// way up: where Listen and send wrap the failed read or write, the wrap is %w.
+func c10ErrorChain(c *Ctx) {
+	type site struct {
+		rel, typ, name string
+		cause          func(p *an.Path) func(*an.Expr) bool
+		failed         func(p *an.Path) bool
+		what           string
+	}
+	callErr := func(pkg, typ, meth string, idx int) func(*an.Expr) bool {
+		return func(e *an.Expr) bool {
+			b, i := stripExtract(e)
+			if idx < 0 {
+				return exprCallIs(e, pkg, typ, meth)
+			}
+			return i == idx && exprCallIs(b, pkg, typ, meth)
+		}
+	}
+	hasAtom := func(p *an.Path, is func(*an.Expr) bool, op token.Token) bool {
+		for _, a := range p.Atoms {
+			x, y, o, ok := effCmp(a)
+			if ok && exprIsNil(y) && o == op && is(x) {
+				return true
+			}
+		}
+		return false
+	}
+	sites := []site{
+		{"internal/corerad", "listener", "Listen", func(*an.Path) func(*an.Expr) bool { return callErr(PkgCorerad, "listener", "receiveRetry", 2) },
+			func(p *an.Path) bool {
+				isCtxErr := func(e *an.Expr) bool { return e.Op == an.OpCall && e.Name == "Err" }
+				return hasAtom(p, callErr(PkgCorerad, "listener", "receiveRetry", 2), token.NEQ) && hasAtom(p, isCtxErr, token.EQL)
+			}, "a failed read (not caused by cancellation)"},
+		{"internal/corerad", "Advertiser", "send", func(*an.Path) func(*an.Expr) bool { return callErr(PkgSystem, "Conn", "WriteTo", -1) },
+			func(p *an.Path) bool { return hasAtom(p, callErr(PkgSystem, "Conn", "WriteTo", -1), token.NEQ) }, "a failed transmission"},
+	}
+	for _, s := range sites {
+		f := c.needMethod("R-C10-6", s.rel, s.typ, s.name)
+		if f == nil {
+			continue
+		}
+		fn := c.fname(f)
+		n := 0
+		for _, p := range c.pathsO("R-C10-6", f, an.PathOpts{EmitCut: true}) {
+			if p.Ret == nil || !s.failed(p) {
+				continue
+			}
+			n++
+			res := p.Results[len(p.Results)-1]
+			c.R.Check(wrapsCause(res, s.cause(p)), "R-C10-6", fn+":cause-kept-in-chain@"+lastAtomName(p), fn, c.pos(p.Ret.Pos()), "returns "+res.String(),
+				s.what+" is returned as is or wrapped with %w, so that Dialer.init can find a *os.SyscallError in the chain",
+				"a recoverable receive/transmit failure is flattened into text: the task ends instead of being re-established")
+		}
+		c.R.Check(n >= 1, "R-C10-6", fn+":failure-paths", fn, c.pos(f.Pos()), fmt.Sprintf("%d failing return path(s)", n), ">= 1", "anchor-missing")
+	}
+	// the listener goroutines of advertise/monitor and the scheduler hand the error up unchanged or %w-wrapped:
+	// every fmt.Errorf in advertise, monitor, schedule, sendWorker and their closures that takes an error argument uses %w for it
+	for _, spec := range [][2]string{{"Advertiser", "advertise"}, {"Monitor", "monitor"}, {"Advertiser", "schedule"}, {"Advertiser", "sendWorker"}} {
+		root := c.P.Method("internal/corerad", spec[0], spec[1])
+		if root == nil {
+			continue
+		}
+		var fns []*ssa.Function
+		var collect func(f *ssa.Function)
+		collect = func(f *ssa.Function) {
+			fns = append(fns, f)
+			for _, a := range f.AnonFuncs {
+				collect(a)
+			}
+		}
+		collect(root)
+		for _, f := range fns {
+			for _, ci := range an.CallsIn(f) {
+				fo := an.CalleeObj(ci.Common())
+				if fo == nil || fo.FullName() != "fmt.Errorf" {
+					continue
+				}
+				v, isV := ci.(ssa.Value)
+				if !isV {
+					continue
+				}
+				e := c.XO.Of(v)
+				if len(e.Args) < 2 || e.Args[1].Op != an.OpStruct {
+					continue
+				}
+				hasErrArg := false
+				for _, a := range e.Args[1].Args {
+					if a != nil && a.Typ != nil && typeStr(a.Typ) == "error" {
+						hasErrArg = true
+					}
+				}
+				if !hasErrArg {
+					continue
+				}
+				isErr := func(x *an.Expr) bool { return x.Typ != nil && typeStr(x.Typ) == "error" && !(x.Op == an.OpCall && x.Fn != nil && x.Fn.String() == "fmt.Errorf") }
+				c.R.Check(wrapsCause(e, isErr), "R-C10-6", c.fname(f)+":wraps-with-%w", c.fname(f), c.pos(ci.Pos()), e.String(),
+					"an error passed up from the task's goroutines is wrapped with %w", "the cause is flattened into text before it reaches Dialer.init")
+			}
+		}
+	}
 }
